@@ -167,11 +167,16 @@ G09_outcome(cfg, st, d) ==
 G09_finalUrl(cfg, st, d) == d.res = "ok" => SameUrlModFragment(d.url, st.cur)
 G12_refusalReported(cfg, st, d) ==
   (st.expect.k = "err" /\ st.expect.what = "ConnectError") => d.kind = "ConnectError:" \o ToString(cfg.connect.status)
+\* the refusal's body is a prefix of what the proxy sent, at most 10 KiB of it
+G12_refusalBodyCapped(cfg, st, d) ==
+  (st.expect.k = "err" /\ st.expect.what = "ConnectError" /\ d.res = "err") =>
+     (d.cbodyLen <= 10240 /\ d.cbodyLcp = d.cbodyLen /\ d.cbodyLen <= cfg.connect.body)
 G05_returns(cfg, st, d) == d.res # "panic"
-DoneGuards == {"G09_outcome", "G09_finalUrl", "G12_refusalReported", "G05_returns"}
+DoneGuards == {"G09_outcome", "G09_finalUrl", "G12_refusalReported", "G12_refusalBodyCapped", "G05_returns"}
 DoneGuard(g, cfg, st, d) ==
   CASE g = "G09_outcome" -> G09_outcome(cfg, st, d) [] g = "G09_finalUrl" -> G09_finalUrl(cfg, st, d)
     [] g = "G12_refusalReported" -> G12_refusalReported(cfg, st, d) [] g = "G05_returns" -> G05_returns(cfg, st, d)
-DoneProp(g) == CASE g = "G12_refusalReported" -> "C12" [] g = "G05_returns" -> "C05" [] OTHER -> "C09"
+    [] g = "G12_refusalBodyCapped" -> G12_refusalBodyCapped(cfg, st, d)
+DoneProp(g) == CASE g \in {"G12_refusalReported", "G12_refusalBodyCapped"} -> "C12" [] g = "G05_returns" -> "C05" [] OTHER -> "C09"
 DoneViolations(cfg, st, d) == {g \in DoneGuards : ~DoneGuard(g, cfg, st, d)}
 =============================================================================
